@@ -13,7 +13,8 @@ CONSTANTS Streams,        \* set of token sequences; token = [b |-> bits, o |-> 
           Afters,         \* what the source does after the released prefix: "eof" | "block" | "error"
           Direct,         \* the Reader peeks the caller's own bufio.Reader (Reset with *bufio.Reader)
           \* deviations of the pinned code (TRUE = as read)
-          DevPeekWholeBuffer, DevErrorBeforeData
+          DevPeekWholeBuffer, DevErrorBeforeData,
+          DevPeekAtStreamEnd   \* at the end of the stream, with all output delivered, peek the source again before io.EOF
 
 VARIABLES S, released, after,            \* environment: stream, gate, behaviour after the gate
           srcPos, bR, held, inPos, inEnd, cbits, tk, prod, deliv, phase, err, eof,
@@ -61,7 +62,8 @@ ReadCall(k) ==
             /\ UNCHANGED <<pc, want>>
      ELSE IF err # "nil"
        THEN UNCHANGED <<deliv, pc, want>>                    \* sticky error, n = 0
-       ELSE /\ pc' = IF phase = "finish" THEN "idle" ELSE IF held THEN "decode" ELSE "peek"
+       ELSE /\ (phase = "streamend" /\ ~held => DevPeekAtStreamEnd)    \* otherwise Finish ends the stream without the source
+            /\ pc' = IF phase = "finish" THEN "idle" ELSE IF held THEN "decode" ELSE "peek"
             /\ want' = IF DevPeekWholeBuffer THEN BufSize
                        ELSE bitsLen \div 8 + 1               \* one byte beyond what is loaded
             /\ UNCHANGED deliv
